@@ -50,6 +50,11 @@ def check_object(run, fdmod, coremod, states):
         param["N" + ax] = st["n"]
         param[ax + "min"] = float(fr(st["mn"]))
         param["d" + ax] = float(fr(st["d"]))
+    if (states[0]["n"] + states[1]["n"]) % 2 == 0:
+        # dictionaries returned by aurel.parameters() also carry the domain bounds of the parameter file, which are not the last
+        # grid points (e.g. a periodic box): the object must report the grid it builds
+        for ax, st in zip(names, states):
+            param[ax + "max"] = float(fr(st["mn"])) + st["n"] * float(fr(st["d"]))
     ctx = {"param": dict(param), "fd_order": p}
 
     def vio(clause, axis, st, what, extra=None):
